@@ -1,0 +1,171 @@
+//! Verification hooks, only compiled with the `verif-hooks` feature (off by default).
+//!
+//! Nothing in here changes behaviour unless a harness installs a callback:
+//! - futex hook: observes `futex_wait`/`futex_wake`, may inject a spurious return,
+//!   and under `cfg(miri)` performs the futex call through the `syscall` shim that
+//!   Miri emulates (inline-asm syscalls cannot be interpreted).
+//! - point hook: named points between atomic operations of the locks and the thread
+//!   epilogue, used to inject delays/yields.
+//! - spin limit: overrides the spin count of the locks so that parking is reached
+//!   with short critical sections.
+use core::sync::atomic::{AtomicPtr, AtomicU32, Ordering};
+
+pub const EV_WAIT_ENTER: u32 = 0;
+pub const EV_WAIT_EXIT: u32 = 1;
+pub const EV_WAKE_ENTER: u32 = 2;
+pub const EV_WAKE_EXIT: u32 = 3;
+
+/// Return values of the futex callback for `EV_WAIT_ENTER`
+pub const ACT_PROCEED: u32 = 0;
+pub const ACT_SPURIOUS_OK: u32 = 1;
+pub const ACT_EINTR: u32 = 2;
+pub const ACT_EAGAIN: u32 = 3;
+
+/// `(event, futex address, value / count, result of the call for *_EXIT events)`
+pub type FutexCallback = fn(u32, usize, u32, isize) -> u32;
+pub type PointCallback = fn(u32);
+
+static FUTEX_CB: AtomicPtr<()> = AtomicPtr::new(core::ptr::null_mut());
+static POINT_CB: AtomicPtr<()> = AtomicPtr::new(core::ptr::null_mut());
+static SPIN_LIMIT: AtomicU32 = AtomicU32::new(u32::MAX);
+
+pub fn set_futex_callback(cb: Option<FutexCallback>) {
+    FUTEX_CB.store(
+        cb.map_or(core::ptr::null_mut(), |f| f as *mut ()),
+        Ordering::Relaxed,
+    );
+}
+
+pub fn set_point_callback(cb: Option<PointCallback>) {
+    POINT_CB.store(
+        cb.map_or(core::ptr::null_mut(), |f| f as *mut ()),
+        Ordering::Relaxed,
+    );
+}
+
+/// `u32::MAX` means "keep the built-in spin count"
+pub fn set_spin_limit(limit: u32) {
+    SPIN_LIMIT.store(limit, Ordering::Relaxed);
+}
+
+#[inline]
+#[must_use]
+pub fn spin_limit(default: u32) -> u32 {
+    let l = SPIN_LIMIT.load(Ordering::Relaxed);
+    if l == u32::MAX {
+        default
+    } else {
+        l
+    }
+}
+
+#[inline]
+pub fn point(id: u32) {
+    let p = POINT_CB.load(Ordering::Relaxed);
+    if !p.is_null() {
+        let f: PointCallback = unsafe { core::mem::transmute(p) };
+        f(id);
+    }
+}
+
+#[inline]
+fn futex_cb(ev: u32, addr: usize, val: u32, res: isize) -> u32 {
+    let p = FUTEX_CB.load(Ordering::Relaxed);
+    if p.is_null() {
+        ACT_PROCEED
+    } else {
+        let f: FutexCallback = unsafe { core::mem::transmute(p) };
+        f(ev, addr, val, res)
+    }
+}
+
+#[cfg(miri)]
+extern "C" {
+    fn syscall(num: i64, ...) -> i64;
+    fn __errno_location() -> *mut i32;
+}
+
+/// Returns `Some(raw kernel-style result)` when the call was injected or performed here
+/// (Miri), `None` when the caller should issue the real system call.
+#[inline]
+pub fn futex_wait_pre(
+    uaddr: &AtomicU32,
+    val: u32,
+    _op: i32,
+    _timeout: *const crate::platform::TimeSpec,
+) -> Option<usize> {
+    let addr = core::ptr::from_ref(uaddr) as usize;
+    match futex_cb(EV_WAIT_ENTER, addr, val, 0) {
+        ACT_SPURIOUS_OK => return Some(0),
+        ACT_EINTR => return Some(0usize.wrapping_sub(4)),
+        ACT_EAGAIN => return Some(0usize.wrapping_sub(11)),
+        _ => {}
+    }
+    #[cfg(miri)]
+    {
+        let r = unsafe {
+            syscall(
+                202,
+                core::ptr::from_ref(uaddr).cast_mut(),
+                _op,
+                val as i32,
+                _timeout,
+            )
+        };
+        let raw = if r < 0 {
+            0usize.wrapping_sub(unsafe { *__errno_location() } as usize)
+        } else {
+            r as usize
+        };
+        futex_cb(EV_WAIT_EXIT, addr, val, raw as isize);
+        return Some(raw);
+    }
+    #[cfg(not(miri))]
+    None
+}
+
+#[inline]
+pub fn futex_wait_post(uaddr: &AtomicU32, val: u32, res: usize) {
+    futex_cb(
+        EV_WAIT_EXIT,
+        core::ptr::from_ref(uaddr) as usize,
+        val,
+        res as isize,
+    );
+}
+
+#[inline]
+pub fn futex_wake_pre(uaddr: &AtomicU32, num_waiters: i32, _op: i32) -> Option<usize> {
+    let addr = core::ptr::from_ref(uaddr) as usize;
+    futex_cb(EV_WAKE_ENTER, addr, num_waiters as u32, 0);
+    #[cfg(miri)]
+    {
+        let r = unsafe {
+            syscall(
+                202,
+                core::ptr::from_ref(uaddr).cast_mut(),
+                _op,
+                num_waiters,
+            )
+        };
+        let raw = if r < 0 {
+            0usize.wrapping_sub(unsafe { *__errno_location() } as usize)
+        } else {
+            r as usize
+        };
+        futex_cb(EV_WAKE_EXIT, addr, num_waiters as u32, raw as isize);
+        return Some(raw);
+    }
+    #[cfg(not(miri))]
+    None
+}
+
+#[inline]
+pub fn futex_wake_post(uaddr: &AtomicU32, num_waiters: i32, res: usize) {
+    futex_cb(
+        EV_WAKE_EXIT,
+        core::ptr::from_ref(uaddr) as usize,
+        num_waiters as u32,
+        res as isize,
+    );
+}
